@@ -12,8 +12,8 @@ import (
 // of the build that found it; for the concurrent workload a candidate is
 // accepted only if it fails in two consecutive executions. Budget: 300
 // candidates or 120 s.
-func minimise(cfg *config, job *Job, p *plan.Plan, v plan.Violation) (*plan.Plan, plan.Violation) {
-	deadline := time.Now().Add(120 * time.Second)
+func minimise(cfg *config, job *Job, p *plan.Plan, v plan.Violation, budget time.Duration) (*plan.Plan, plan.Violation) {
+	deadline := time.Now().Add(budget)
 	tried := 0
 	best := p.Clone()
 	bestV := v
